@@ -32,6 +32,10 @@ type Conv struct {
 	MethodLines []string `json:"method_lines,omitempty"`
 	// CLI: settings passed with -g
 	CLI []string `json:"cli,omitempty"`
+	// InputMayNotCompile: the program is meant to be rejected because a package cannot be loaded
+	InputMayNotCompile bool `json:"input_may_not_compile,omitempty"`
+	// OutInInput: the converter's lines send the output into the declaring package (struct / function format)
+	OutInInput bool `json:"out_in_input,omitempty"`
 	// ExtraMethods: further methods of the same converter: raw Go lines (with their own comment lines).
 	ExtraMethods string `json:"extra_methods,omitempty"`
 	ExpectFail   bool   `json:"expect_fail,omitempty"`
@@ -67,6 +71,9 @@ func (c *Conv) subst(s string) string {
 	s = strings.ReplaceAll(s, "PFX", c.Pfx)
 	s = strings.ReplaceAll(s, "pfx", strings.ToLower(c.Pfx))
 	s = strings.ReplaceAll(s, "CNAME", c.Name)
+	if c.Group != "" {
+		s = strings.ReplaceAll(s, "UGRP", strings.ToUpper(c.Group[:1])+c.Group[1:])
+	}
 	return strings.ReplaceAll(s, "GRP", c.Group)
 }
 
